@@ -316,9 +316,9 @@ static std::string make_line1(Rng &rng, const Opts &o, bool bmat) {
     if (rp.rk >= 5 && rng.coin()) rp.rk = 3;          // ilu0 more often than its variants
     if (rp.rk == 3 || rp.rk >= 5) rp.damping = rng.coin() ? Q(1) : Q::frac(rng.range(5, 7), 8);
     long smax = o.thorough() ? 3 : 2;
-    Tail t; t.npre = rng.range(1, smax); t.npost = rng.coin(2, 3) ? t.npre : rng.range(1, smax); t.ncycle = rng.range(1, 2); t.pre_cycles = rng.coin(1, 6) ? 0 : rng.range(1, 2);
+    Tail t; t.npre = rng.coin(1, 5) ? 0 : rng.range(1, smax); t.npost = rng.coin(2, 3) ? t.npre : (rng.coin(1, 5) ? 0 : rng.range(1, smax)); /* zero smoothing steps are valid */ t.ncycle = rng.range(1, 2); t.pre_cycles = rng.coin(1, 6) ? 0 : rng.range(1, 2);
     if (t.ncycle == 2 && t.pre_cycles == 2) t.pre_cycles = 1;     // keep the rational growth bounded
-    if (bmat) { t.npost = t.npre; t.pre_cycles = 1; }
+    if (bmat) { if (t.npre == 0) t.npre = 1; t.npost = t.npre; t.pre_cycles = 1; }
     if (bmat && rng.coin(1, 5)) {
         // deeper hierarchies: 2D node grid, plain aggregation down to one block unknown (3+ levels), V-cycle with one sweep
         long m = rng.range(3, o.thorough() ? 5 : 4); h.b = 2; h.kind = 0; h.A = gen_coupled(rng, m * m, 2, 1, 4); h.ce = 1; h.dc = 1; h.ml = 10;
